@@ -46,41 +46,9 @@ fn check_case(c: &SeqCase, obs: &mut Obs) -> Verdict {
 }
 
 fn strat(tier: Tier) -> BoxedStrategy<SeqCase> {
-    use proptest::collection::vec;
-    let big = tier.pick(2500usize, 5000);
     prop_oneof![
         400 => seq_case_k(tier.pick(100, 300), true, 3, true),
-        // thousands of raw ops: long sequences over a small alphabet with hundreds of scattered edits
-        1 => (2u32..5, vec(0u32..64, 1200..=big), vec((0u8..3, any::<u16>(), 0u32..64), 300..=900), 0u8..2).prop_map(|(k, a, es, alg)| {
-            let a: Vec<u32> = a.into_iter().map(|x| x % k).collect();
-            let mut b = a.clone();
-            for (kind, at, val) in es {
-                let n = b.len();
-                if n == 0 {
-                    break;
-                }
-                let p = pos(at, n - 1);
-                match kind {
-                    0 => {
-                        b.remove(p);
-                    }
-                    1 => b.insert(p, val % k),
-                    _ => b[p] = val % k,
-                }
-            }
-            SeqCase::full(alg, a, b)
-        }),
-        // one edit next to a very long periodic run (an insertion has to slide thousands of positions)
-        1 => (1usize..4, 2200..=tier.pick(5200usize, 9000), 0usize..3, any::<u16>(), 0u8..3).prop_map(|(p, n, extra, at, alg)| {
-            let a: Vec<u32> = (0..n).map(|i| (i % p) as u32).collect();
-            let mut b = a.clone();
-            let q = pos(at, b.len());
-            for t in 0..=extra {
-                b.insert(q, ((q + t) % p) as u32);
-            }
-            let alg = if alg == 2 { 0 } else { alg }; // LCS tables of this size are too large
-            SeqCase::full(alg, a, b)
-        }),
+        2 => big_seq_case(tier),
     ]
     .boxed()
 }
